@@ -641,6 +641,14 @@ TTL_DOCS = [
      [(_I("http://example.org/pipe1"), TYPE, _I("http://example.org/Pipe")),
       (_I("http://example.org/pipe1"), "http://example.org/len", _L("6", XS + "string")),
       (_I("http://example.org/pipe2"), TYPE, _I("http://example.org/Pipe"))]),
+    ("blanks inside the lexical form of tagged and typed literals",
+     '@prefix ex: <http://example.org/> .\n'
+     'ex:a ex:motto "Muy noble, muy leal"@es ;\n'
+     '   ex:seq "1 2 3"^^<http://www.w3.org/2001/XMLSchema#string> ;\n'
+     '   ex:plain "two words" .\n',
+     [(_I("http://example.org/a"), "http://example.org/motto", _L("Muy noble, muy leal", RDFNS + "langString")),
+      (_I("http://example.org/a"), "http://example.org/seq", _L("1 2 3", XS + "string")),
+      (_I("http://example.org/a"), "http://example.org/plain", _L("two words", XS + "string"))]),
     ("a comment mark inside a literal and a real trailing comment on the same line",
      '@prefix ex: <http://example.org/> .\n'
      'ex:a ex:q "tag #1 inside" ; # a real comment, with a # of its own\n'
@@ -829,6 +837,22 @@ def nt_document_table(ctx, clause):
                           label, want, errors, status, got, nerr)))
     return obs
 
+
+
+def documents_never_raise(ctx, clause):
+    """The no-crash half of the two document tables: a document inside the reader's dialect is read to the end - whatever
+    triples come out (that is C06 / C07), no exception does."""
+    obs = []
+    for cname, docs in (("BigTtlTriplesYielder", [(l, d) for l, d, w in TTL_DOCS if w != "raise"]),
+                        ("NtTriplesYielder", [(l, d.replace("\\\\", "\\")) for l, d, w, e in NT_DOCS])):
+        f = ctx.p.find_class(cname).find_method("yield_triples")
+        for label, doc in docs:
+            status, got, _ = _read_document(ctx, cname, doc)
+            ok = status != "raise"
+            obs.append(Ob(clause, "R-TABLE", "R-TABLE|reader-no-raise|%s|%s" % (cname, label), f.loc(), ok,
+                          "%s reads the document (%s) to its end" % (cname, label) if ok else
+                          "%s raises on a valid document (%s): %s" % (cname, label, got)))
+    return obs
 
 
 def rdflib_literal_datatype_source(ctx, clause):
